@@ -18,7 +18,9 @@ import (
 // carry attributes of their own (dc:rights, dc:title: the xml:lang qualifier must not be taken for an item).
 // Anywhere else a decision on pt makes the attribute and the element serialisation of a simple property decode
 // differently.
-var formDepArrayProps = []string{"Rights", "Title"}
+// the language alternatives of Dublin Core (XMP specification part 1, 8.3: dc:title, dc:description, dc:rights are
+// of type "Lang Alt"): their rdf:li items carry an xml:lang attribute of their own
+var formDepArrayProps = []string{"Rights", "Title", "Description"}
 
 func ruleFormDep(p *Prog, r *Report) {
 	sp := p.SSAPkg("xmp")
@@ -50,6 +52,7 @@ func ruleFormDep(p *Prog, r *Report) {
 		return ok && idx < st.NumFields() && st.Field(idx).Name() == "pt"
 	}
 	nReads := 0
+	seenUnder := map[string]bool{}
 	for _, f := range pkgFns(sp, p) {
 		if rc := f.Signature.Recv(); rc != nil && strings.Contains(rc.Type().String(), "xmpReader") {
 			continue
@@ -97,6 +100,7 @@ func ruleFormDep(p *Prog, r *Report) {
 				}
 			}
 			if under != "" {
+				seenUnder[under] = true
 				r.OK("FORMDEP", key+" | under Name() == "+under, at, "array property whose items carry attributes (reviewed list)")
 			} else {
 				r.Bad("FORMDEP", key, at, "the attribute/element form of the property is consulted outside the cases of the array properties (dc:rights, dc:title): a simple property written as an attribute is then treated differently from the same property written as an element")
@@ -105,6 +109,16 @@ func ruleFormDep(p *Prog, r *Report) {
 	}
 	if nReads == 0 {
 		r.OK("FORMDEP", "xmp | no reads of the serialisation form outside the tokenizer", "-", "nothing depends on the form")
+	}
+	// and each language alternative does consult the form: the xml:lang attribute of its rdf:li items reaches the
+	// namespace parser under the property's own name, and without the test it is appended to the values as an item
+	for _, nm := range formDepArrayProps {
+		key := "xmp dc:" + strings.ToLower(nm) + " | the language attribute of an item is not taken for an item"
+		if seenUnder[nm] {
+			r.OK("FORMDEP", key, "-", "the store is under a test of the serialisation form")
+		} else {
+			r.Bad("FORMDEP", key, "-", "no test of the serialisation form under Name() == "+nm+": the value of the xml:lang attribute of each rdf:li (\"x-default\") is appended to the property's values as if it were an item")
+		}
 	}
 }
 
